@@ -173,7 +173,8 @@ def c19(report, tier, seed):
         "merge: every id-ordered collection up to 3/4 documents of the pool x --incomplete x --non-strict x -o, files supplied in shuffled order",
         "a valid file needs exactly one stdout line '<file>: <Class>[ (completed)]' in argument order; an invalid one a line "
         "'<file>: <not a class name>' on stdout or stderr; library log lines are ignored; None and 0 are both exit status 0",
-        "S3 options (-b/-p/-s/-k) are not exercised here"])
+        "source modes: -f files; -b/-p (default suffix); -b/-p/-s; -b/-k; -b alone; nothing - the bucket is an in-memory fake "
+        "(one or two keys per page); a command that names no document must exit 2 with a message on stderr"])
 
 
 def c18(report, tier, seed):
